@@ -30,23 +30,37 @@ func roleOf(name string) int {
 	return 0
 }
 
-func rolesIn(e ast.Node) (has1, has2 bool) {
-	ast.Inspect(e, func(n ast.Node) bool {
-		var name string
-		switch x := n.(type) {
-		case *ast.Ident:
-			name = x.Name
-		default:
+// rolesIn: which sides the variables and fields mentioned in e belong to. Names of functions, types and packages carry
+// no side (NewPeer2PeerConnection is not "peer 2"); a local that only names a sub-expression stands for that expression.
+func rolesIn(info *types.Info, scope ast.Node, e ast.Node) (has1, has2 bool) {
+	var visit func(e ast.Node, depth int)
+	visit = func(e ast.Node, depth int) {
+		ast.Inspect(e, func(n ast.Node) bool {
+			id, ok := n.(*ast.Ident)
+			if !ok {
+				return true
+			}
+			if info != nil {
+				if _, isVar := info.ObjectOf(id).(*types.Var); !isVar {
+					return true
+				}
+				if scope != nil && depth < 3 && roleOf(id.Name) == 0 {
+					if d := ResolveLocal(info, scope, id); d != ast.Expr(id) {
+						visit(d, depth+1)
+						return true
+					}
+				}
+			}
+			switch roleOf(id.Name) {
+			case 1:
+				has1 = true
+			case 2:
+				has2 = true
+			}
 			return true
-		}
-		switch roleOf(name) {
-		case 1:
-			has1 = true
-		case 2:
-			has2 = true
-		}
-		return true
-	})
+		})
+	}
+	visit(e, 0)
 	return
 }
 
@@ -60,7 +74,7 @@ func PairRoleConsistency(p *core.Program, r *core.Report, rule string) {
 			if k == 0 {
 				return
 			}
-			h1, h2 := rolesIn(rhs)
+			h1, h2 := rolesIn(fd.Pkg.TypesInfo, fd.Decl.Body, rhs)
 			if !h1 && !h2 {
 				return
 			}
